@@ -45,6 +45,20 @@ func (e *Engine) harnessAPI2(name string, args []Value, fn *ssa.Function) (Value
 		return e.tt.UF("utf8valid", 0, e.intern("rope", e.ropeKey(r))), true
 	case "vRand":
 		return Iface{typ: e.fake("rand"), val: OpaqueV{kind: "rand"}}, true
+	case "vEdVerdict":
+		n := len(e.primLog)
+		v := e.callStub("crypto/ed25519.Verify", nil, args)
+		e.primLog = e.primLog[:n]
+		return v, true
+	case "vRSAVerdict":
+		n := len(e.primLog)
+		pub := e.load(args[0].(PtrV)).(*StructV)
+		keyID := e.rsaPubID(pub)
+		dig := e.bytesRope(args[2].(BytesV))
+		sig := e.bytesRope(args[3].(BytesV))
+		v := e.tt.UF("V_rsa", 0, e.intern("key", keyID), args[1].(*Term), e.tt.BVi(-1, 64), e.canonID(dig), e.canonID(sig))
+		e.primLog = e.primLog[:n]
+		return v, true
 	case "vEdSign":
 		r := e.callStub("(crypto/ed25519.PrivateKey).Sign", nil, []Value{args[0], Iface{}, args[1], Iface{}}).(TupleV)
 		return r[0], true
